@@ -216,7 +216,13 @@ def _work(chunk):
         except MachineryError as e:
             out.append((name, fd, -1, str(e), False))
             continue
-        rs = faultrun.run_all(data, caching=not f.nocache)
+        budgets = None
+        if _SEEDS[name].double is not None:
+            # a document that is mostly one well-compressed object stream does far more work per input byte than the
+            # line budget allows for; its absolute bound is BULK_FACTOR times the work of the undamaged document, and
+            # what really decides is the scaling check below
+            budgets = [BULK_FACTOR * b for b in base[1]]
+        rs = faultrun.run_all(data, caching=not f.nocache, budgets=budgets)
         obs = False
         rows = []
         for i, (e, oc, lines, detail) in enumerate(rs):
@@ -233,6 +239,7 @@ def _work(chunk):
     return out
 
 
+BULK_FACTOR = 12
 SCALE_FACTOR = 2.5        # work(2n members) must stay below SCALE_FACTOR * work(n members) ...
 SCALE_FLOOR = 150_000     # ... once it is above this many lines (small runs are dominated by constants)
 _DOUBLE = {}
@@ -246,20 +253,28 @@ def _scaling(name, f, fd, rs):
         big = _SEEDS[name].double()
         d1, l1 = assemble(_SEEDS[name])
         d2, l2 = assemble(big)
-        _DOUBLE[name] = (big, len(d1), len(d2), {k: len(v) for k, v in l1.payloads.items()},
-                         {k: len(v) for k, v in l2.payloads.items()})
-    big, n1, n2, p1, p2 = _DOUBLE[name]
+        base2 = [r[2] for r in faultrun.run_all(d2)]
+        ids = {}
+        for owner in ("objstm:0", "xref:0"):          # object numbers the writer assigns differ between the two sizes
+            if owner in l1.derived and owner in l2.derived:
+                ids[l1.derived[owner][0]] = l2.derived[owner][0]
+        _DOUBLE[name] = (big, {k: len(v) for k, v in l1.payloads.items()}, {k: len(v) for k, v in l2.payloads.items()},
+                         ids, base2)
+    big, p1, p2, ids, base2 = _DOUBLE[name]
     fd2 = dict(fd)
     if fd["cls"] == "file":
-        fd2["pos"] = min(n2 - 1, fd["pos"] * n2 // n1)
-    elif fd["cls"] == "payload" and fd["kind"] in ("truncate", "corrupt"):
+        return []            # a cut at "the same" place of a longer file is another fault: not comparable
+    if fd["cls"] == "payload" and fd["kind"] in ("truncate", "corrupt"):
         a, b = p1.get(fd["site"], 0), p2.get(fd["site"], 0)
-        if a and b:
-            # cuts near the end stay near the end (the last bytes are what matters), others scale
-            fd2["pos"] = (b - (a - fd["pos"])) if a - fd["pos"] <= 16 else min(b - 1, fd["pos"] * b // a)
+        if not (a and b and a - fd["pos"] <= 16):
+            return []        # only damage anchored at the end of the payload means the same in both sizes
+        fd2["pos"] = b - (a - fd["pos"])
+    if fd["cls"] == "xrefent":
+        k, n = fd["site"].split("/")
+        fd2["site"] = "%s/%d" % (k, ids.get(int(n), int(n)))
     f2 = Fault(fd2)
     data2, _ = assemble(big, f2)
-    rs2 = faultrun.run_all(data2, caching=not f2.nocache)
+    rs2 = faultrun.run_all(data2, caching=not f2.nocache, budgets=[BULK_FACTOR * b for b in base2])
     rows = []
     for (e, oc, lines, _), (e2, oc2, lines2, detail2) in zip(rs, rs2):
         c1, c2 = oc.split(":")[0], oc2.split(":")[0]
